@@ -281,7 +281,9 @@ type Client struct {
 	writeSem chan net.Conn
 
 	// The semaphore allows for one ping request at a time.
+	// Any use requires a pingMu lock.
 	pingAck chan chan<- error
+	pingMu  sync.Mutex
 
 	atLeastOnce, exactlyOnce outbound
 
@@ -519,12 +521,14 @@ func (c *Client) termCallbacks() {
 		}
 	}()
 
+	c.pingMu.Lock()
 	select {
 	case ack := <-c.pingAck:
 		ack <- fmt.Errorf("%w; PING not confirmed", ErrBreak)
 	default:
 		break
 	}
+	c.pingMu.Unlock()
 	wg.Wait()
 
 	c.unorderedTxs.breakAll()
@@ -590,12 +594,14 @@ func (c *Client) toOffline() {
 	c.bufr = nil
 	c.peek = nil // applied to prevous r, if any
 
+	c.pingMu.Lock()
 	select {
 	case ack := <-c.pingAck:
 		ack <- ErrBreak
 	default:
 		break
 	}
+	c.pingMu.Unlock()
 
 	c.unorderedTxs.breakAll()
 }
